@@ -147,10 +147,11 @@ def plan(profile, cap):
             ns, prs, sr, src = [mid], [(mid, 1), (mid, cap - mid), (mid, cap - mid + 1)], [(mid, 2)], [cap]
         elif profile == 'full':
             ns, prs, sr, src = [0, mid, cap], [(0, cap), (mid, 1), (mid, cap - mid), (mid, cap - mid + 1), (cap, 1)], [(0, 1), (mid, 1), (mid, 2), (cap, 1)], [0, 1, cap]
-        elif profile == 'all':      # every pre-size; operand lengths 0, 1, 2 and around the fit boundary; searches up to 3 and cap
+        elif profile == 'all':      # every pre-size; exact fit and first overflow from each, short operands from three of them; searches with needles 1..3
             ns = list(range(cap + 1))
-            prs = [(n, m) for n in ns for m in clamp(cap, [0, 1, cap - n, cap - n + 1])]
-            sr, src = [(n, m) for n in ns for m in clamp(cap, [1, 2, 3])] + [(0, 0), (cap, 0)], list(range(cap + 1))
+            prs = sorted({(n, m) for n in ns for m in clamp(cap, [cap - n, cap - n + 1])} | {(n, m) for n in (0, mid, cap - 1) for m in (0, 1)})
+            sr = [(n, m) for n in clamp(cap, [0, 1, 2, 3, 5, cap]) for m in clamp(cap, [1, 2])] + [(0, 0), (cap, 0), (mid, 3), (2, 3)]
+            src = list(range(cap + 1))
         else:
             raise ValueError(profile)
         return dict(one=ns, one_rot=[(n, S) for n in ns], mut=prs, heavy=prs, rot2=[(n, m, S) for n, m in prs], sr=sr, src=src)
@@ -164,17 +165,17 @@ def plan(profile, cap):
                     heavy=[(3, 1)], rot2=[(3, 1, S), (cap - 1, 1, cap - 2)], sr=[(3, 2), (cap, 1)] + ([(0, 1), (3, 1)] if profile == 'full' else []), src=[cap] + ([0, 1] if profile == 'full' else []))
     if profile == 'wide':
         ns = clamp(cap, [0, 1, mid, cap - 1, cap])
-        return dict(one=ns, one_rot=[(0, S), (1, S), (3, S), (4, S), (mid, mid - 1), (mid, mid), (cap - 1, cap - 2), (cap, cap - 1), (cap, cap - 2), (cap, cap)],
-                    mut=[(n, m) for n in ns for m in clamp(cap, [1, cap - n, cap - n + 1])], heavy=[(3, 1), (3, 2), (4, 4), (2, 3)],
-                    rot2=[(3, 1, S), (3, 2, S), (2, 3, S), (mid, 1, mid - 1), (mid, 2, mid), (cap - 1, 1, cap - 2), (cap - 1, 1, cap - 1), (cap - 2, 2, cap - 2), (cap, 1, cap - 1)],
-                    sr=[(0, 1), (1, 1), (3, 1), (3, 2), (4, 3), (mid, 2), (cap, 1), (cap, 2)], src=clamp(cap, [0, 1, mid, cap - 1, cap]))
+        return dict(one=ns, one_rot=[(0, S), (3, S), (4, S), (mid, mid - 1), (cap - 1, cap - 2), (cap, cap - 1), (cap, cap)],
+                    mut=[(n, m) for n in ns for m in clamp(cap, [cap - n, cap - n + 1])] + [(mid, 1), (0, 1)], heavy=[(3, 1), (3, 2), (4, 4)],
+                    rot2=[(3, 1, S), (2, 3, S), (mid, 1, mid - 1), (cap - 1, 1, cap - 2), (cap - 1, 1, cap - 1), (cap, 1, cap - 1)],
+                    sr=[(0, 1), (3, 1), (3, 2), (4, 3), (mid, 2), (cap, 1)], src=clamp(cap, [0, 1, mid, cap]))
     raise ValueError(profile)
 
 
 QUICK = [('char', 1, 'full'), ('char', 7, 'full'), ('char', 15, 'edge'), ('char', 16, 'full'), ('char16_t', 7, 'light'), ('char16_t', 16, 'light')]
-THOROUGH = ([('char', 0, 'all'), ('char', 1, 'all'), ('char', 7, 'all'), ('char', 15, 'wide'), ('char', 16, 'wide'), ('char', 31, 'edge'), ('char', 255, 'huge'), ('char', 256, 'huge')]
-            + [(ch, cap, pr) for ch in ('wchar_t', 'char16_t') for cap, pr in ((0, 'all'), (1, 'full'), (7, 'full'), (15, 'light'), (16, 'edge'), (31, 'light'))]
-            + [(ch, cap, pr) for ch in ('char8_t', 'char32_t') for cap, pr in ((0, 'all'), (1, 'full'), (7, 'light'), (16, 'edge'))])
+THOROUGH = ([('char', 0, 'all'), ('char', 1, 'all'), ('char', 7, 'all'), ('char', 15, 'wide'), ('char', 16, 'wide'), ('char', 31, 'light'), ('char', 255, 'huge'), ('char', 256, 'huge')]
+            + [(ch, cap, pr) for ch in ('wchar_t', 'char16_t') for cap, pr in ((0, 'all'), (1, 'full'), (7, 'light'), (15, 'light'), (16, 'light'), (31, 'light'))]
+            + [(ch, cap, pr) for ch in ('char8_t', 'char32_t') for cap, pr in ((0, 'all'), (1, 'full'), (7, 'light'), (16, 'light'))])
 QUICK_C02 = [('char', 7, 'light'), ('char', 16, 'light')]
 ERASERS = ('erase_pc', 'erase_p', 'erase_0', 'erase_it', 'erase_itit', 'erase_val', 'erase_if')
 
@@ -193,7 +194,7 @@ def queries(tier, prop='C04'):
     out = []
     seen = set()
 
-    def add(e, ch, cap, n, m, p=None, chk=False):
+    def add(e, ch, cap, n, m, p=None, chk=False, budget=None):
         if not applicable(e, ch, cap, n, m, tier):
             return
         if cap >= 15 and n > 4:
@@ -212,7 +213,7 @@ def queries(tier, prop='C04'):
             extra['P_'] = p
         if chk:
             extra['CHK'] = 1
-        q = mkq(e, ch, cap, n, m, ub, extra=extra, p=p if e in USES_P else None)
+        q = mkq(e, ch, cap, n, m, ub, extra=extra, p=p if e in USES_P else None, budget=budget or (240 if tier == 'quick' else 600))
         # configurations that lie wholly inside an open known-finding region (HARNESS.md): only a confirm query may use them
         inside = False
         if 'C04_swap_full_tiny' in opn and e in ('swap', 'swap_free') and cap < 16 and (n == cap or m == cap) and n != m:
@@ -229,10 +230,17 @@ def queries(tier, prop='C04'):
 
     for ch, cap, profile in combos:
         huge = profile == 'huge'
-        if huge:   # capacities 255/256 (size field switches from 8 to 16 bit): no rotate-based operations, no searches
-            pl = dict(one=[0, cap - 1, cap], one_rot=[], mut=[(0, 1), (cap - 1, 1), (cap - 1, 2), (cap, 0)], heavy=[], rot2=[], sr=[(cap, 2)], src=[cap])
-        else:
-            pl = plan(profile, cap)
+        if huge:
+            # capacities 255/256: the size field switches from 8 to 16 bit. Only the operations whose query stays below ~60 s there
+            # (size bookkeeping: push/pop/clear/+=/swap/copies/compare); everything else times out at this capacity (measured)
+            for n in (0, cap - 1, cap):
+                for e in ('push_back', 'pop_back', 'clear', 'pluseq_c', 'ctor_copy', 'ctor_move'):
+                    add(e, ch, cap, n, 0, budget=600)
+            for n, m in ((0, 1), (cap - 1, 1), (cap, 0), (cap, 2)):
+                for e in ('swap', 'cmp_s', 'asg_copy'):
+                    add(e, ch, cap, n, m, budget=600)
+            continue
+        pl = plan(profile, cap)
         dn = min(3, cap)     # pre-size for the default-argument forms
         for e in CONS:
             add(e, ch, cap, 0, 0)
@@ -242,13 +250,13 @@ def queries(tier, prop='C04'):
         for n in pl['one']:
             for e in ONE_MUT + ONE_SRCH:
                 add(e, ch, cap, n, 0)
-        if cap >= 15 and not huge:
+        if cap >= 15:
             for e in ONE_SRCH:
                 add(e, ch, cap, 3, 0)
         for n, p in pl['one_rot']:
             for e in ONE_ROT:
                 add(e, ch, cap, n, 0, p)
-        if not huge and cap >= 2:
+        if cap >= 2:
             nn = cap - 2 if ch == 'char' else cap - 1
             add('insert_nc', ch, cap, nn, 0, None if cap <= 8 else nn)
         for n, m in pl['mut']:
@@ -269,7 +277,7 @@ def queries(tier, prop='C04'):
             add(e, ch, cap, dn, min(2, cap))
         # ---- contract-checked build (cfg CHK): a fired TETL_PRECONDITION on a call that std::basic_string accepts is a failed
         # obligation; the mutators and element access, char only
-        if ch == 'char' and not huge and cap in ((7,) if tier == 'quick' else (7, 16)) and not ub:
+        if ch == 'char' and cap in ((7,) if tier == 'quick' else (7, 16)) and not ub:
             small = cap <= 8
             mid = cap // 2 if small else 3
             for e in CONS:
